@@ -66,6 +66,7 @@ type OpRec struct {
 }
 
 type writerRec struct {
+	Committed int // keys on which the store holds a commit record of the transaction
 	StartTS   uint64
 	CommitErr string
 	Primary   string
@@ -118,11 +119,29 @@ type slotState struct {
 	mustRoll bool
 }
 
+// onSim runs fn on the simulator goroutine and waits for it. The store objects are only ever
+// touched there: the mock sleeps inside its handlers while holding its mutex, and a goroutine
+// waiting for that mutex (not a durable block) would keep the simulated clock from advancing.
+func (w *world) onSim(fn func()) {
+	done := make(chan struct{})
+	w.probeMu.Lock()
+	w.probes++
+	n := w.probes
+	w.probeMu.Unlock()
+	w.sim.Submit(fmt.Sprintf("probe%d", n), 0, uint64(n), func() {
+		fn()
+		close(done)
+	})
+	<-done
+}
+
 // logicalLocksOf lists the locks in the store inside keyspace ks in logical form (ground truth).
 func (w *world) logicalLocksOf(ks int) []LockDesc {
 	var out []LockDesc
 	k := w.kss[ks]
-	for _, l := range w.dumpLocks() {
+	var locks []*kvrpcpb.LockInfo
+	w.onSim(func() { locks = w.dumpLocks() })
+	for _, l := range locks {
 		if k.has(l.Key) {
 			p := l.PrimaryLock
 			if k.has(p) {
@@ -218,11 +237,17 @@ func (w *world) runTxnActor(phase, ai int, a *Actor) {
 				_ = sl.txn.Rollback()
 			}
 			var txn *transaction.KVTxn
-			txn, err = store.Begin()
+			if op.Pipe {
+				txn, err = store.Begin(tikv.WithDefaultPipelinedTxn())
+			} else {
+				txn, err = store.Begin()
+			}
 			if err == nil {
-				txn.SetPessimistic(op.Pess)
-				txn.SetEnableAsyncCommit(op.Async)
-				txn.SetEnable1PC(op.OnePC)
+				if !op.Pipe {
+					txn.SetPessimistic(op.Pess)
+					txn.SetEnableAsyncCommit(op.Async)
+					txn.SetEnable1PC(op.OnePC)
+				}
 				rec.StartTS = txn.StartTS()
 				slots[op.Slot&1] = &slotState{txn: txn, pess: op.Pess}
 			} else {
@@ -397,16 +422,36 @@ func (w *world) runTxnActor(phase, ai int, a *Actor) {
 				rec.Locs = []LocDesc{{ID: loc.Region.GetID(), Start: string(loc.StartKey), End: string(loc.EndKey)}}
 			}
 		case "locrange":
+			if op.Hi != "" && string(w.key(op.Lo)) >= string(w.key(op.Hi)) {
+				rec.Skipped = "empty range"
+				break
+			}
 			bo := retry.NewBackofferWithVars(ctx, 20000, nil)
 			var locs []*locate.KeyLocation
-			locs, err = store.GetRegionCache().LocateKeyRange(bo, w.key(op.Lo), w.key(op.Hi))
+			if i%4 >= 2 {
+				// forget what is cached for the range, so that the answer has to come from PD
+				if pre, e := store.GetRegionCache().LocateKeyRange(bo, w.key(op.Lo), w.key(op.Hi)); e == nil {
+					for _, l := range pre {
+						store.GetRegionCache().InvalidateCachedRegion(l.Region)
+					}
+				}
+			}
+			if i%2 == 0 {
+				locs, err = store.GetRegionCache().LocateKeyRange(bo, w.key(op.Lo), w.key(op.Hi))
+			} else {
+				locs, err = store.GetRegionCache().BatchLocateKeyRanges(bo, []kv.KeyRange{{StartKey: w.key(op.Lo), EndKey: w.key(op.Hi)}})
+			}
 			for _, l := range locs {
 				rec.Locs = append(rec.Locs, LocDesc{ID: l.Region.GetID(), Start: string(l.StartKey), End: string(l.EndKey)})
 			}
 		case "scanlocks":
 			rec.TruthLocks[0] = w.logicalLocksOf(a.Ks)
 			var locks []*txnlock.Lock
-			locks, err = tikv.StoreProbe{KVStore: store}.ScanLocks(ctx, w.key(op.Lo), w.key(op.Hi), ^uint64(0)>>1)
+			hi := w.key(op.Hi)
+			if len(hi) == 0 {
+				hi = []byte{0xff, 0xff, 0xff, 0xff, 0xff} // the probe takes an empty end key as "before every key"
+			}
+			locks, err = tikv.StoreProbe{KVStore: store}.ScanLocks(ctx, w.key(op.Lo), hi, ^uint64(0)>>1)
 			for _, l := range locks {
 				rec.Locks = append(rec.Locks, LockDesc{Key: string(l.Key), Primary: string(l.Primary), TxnID: l.TxnID})
 			}
@@ -422,21 +467,25 @@ func (w *world) runTxnActor(phase, ai int, a *Actor) {
 			}
 			rec.TS = ts
 			_, err = tikv.ResolveLocksForRange(ctx, tikv.NewRegionLockResolver("keyspacesim", store), ts, w.key(op.Lo), w.key(op.Hi), tikv.NewGcResolveLockMaxBackoffer, uint32(op.Limit))
-		case "delrange":
+		case "delrange", "destroyrange":
 			if slots[0] != nil || slots[1] != nil {
 				rec.Skipped = "a transaction is open"
 				break
 			}
 			// the call removes records and locks below any transaction: it only makes sense on a range
 			// nobody is committing in; wait for the client's background commits to land
-			for j := 0; j < 40 && !w.net.Quiet(300*time.Millisecond); j++ {
+			for j := 0; j < 40 && !w.mon.quiet(300*time.Millisecond); j++ {
 				time.Sleep(100 * time.Millisecond)
 			}
 			if len(w.logicalLocksOf(a.Ks)) > 0 {
 				rec.Skipped = "locks in the keyspace"
 				break
 			}
-			_, err = store.DeleteRange(ctx, w.key(op.Lo), w.key(op.Hi), 1+i%3)
+			if op.Kind == "destroyrange" {
+				err = store.UnsafeDestroyRange(ctx, w.key(op.Lo), w.key(op.Hi))
+			} else {
+				_, err = store.DeleteRange(ctx, w.key(op.Lo), w.key(op.Hi), 1+i%3)
+			}
 		case "split":
 			if w.sc.RevUnb {
 				rec.Skipped = "layout must stay aligned"
@@ -510,6 +559,11 @@ func (w *world) runWriter(wr *Writer) {
 	w.net.Plan[fmt.Sprintf("ord:%d:wcommit+%d", wr.Client, wr.CrashAt)] = fate
 	err = txn.Commit(ctx)
 	w.writer.CommitErr, _ = classify(err)
+	if err != nil {
+		// the process is dead: stop what is left of it (the lock keeper of a pessimistic transaction
+		// would go on trying to send heart beats for the rest of the run); nothing it sends arrives
+		_ = txn.Rollback()
+	}
 	if !w.net.IsCut(wr.Client) {
 		// the commit needed fewer requests than the crash position: the client dies now
 		w.net.Cut(wr.Client)
